@@ -1,6 +1,7 @@
 package main
 
 import (
+	"github.com/spf13/viper"
 	"fmt"
 	"os"
 	"path/filepath"
@@ -207,6 +208,7 @@ func init() {
 				c18Flip(ctx, dir)
 				c18Retarget(ctx, dir)
 				c18PathShapes(ctx, dir)
+				c18ConfiguredExec(ctx, dir)
 				c18Config(ctx, dir)
 			}
 		}
@@ -506,6 +508,109 @@ func c18PathShapes(ctx *Ctx, dir string) {
 					ctx.Violation("path-shape:permitted-executable-not-run:"+sh.name, desc, desc)
 				}
 				ctx.Nontrivial(fmt.Sprintf("shape:%s:%v:%s", sh.name, realGood, via))
+			}
+		}
+	}
+}
+
+// c18ConfiguredExec: the exec path as the user wrote it in the configuration file, taken through the real loader
+// (relative to the working directory: "./x", "sub/../x", "bin/x"; absolute), with a same-named decoy of the opposite
+// verdict in a PATH directory. The file that is tested and run is the one the configured path names.
+func c18ConfiguredExec(ctx *Ctx, dir string) {
+	marker := filepath.Join(dir, "marker-cfgexec")
+	mk := func(p string, good bool) {
+		_ = os.MkdirAll(filepath.Dir(p), 0755)
+		_ = os.Remove(p)
+		tag := "decoy"
+		if good {
+			tag = "configured"
+		}
+		_ = os.WriteFile(p, []byte("#!/bin/sh\necho "+tag+" >> "+marker+"\necho 42000\n"), 0700)
+		_ = os.Chown(p, 0, 0)
+		_ = os.Chmod(p, 0o755)
+	}
+	cwd, _ := os.Getwd()
+	oldPath := os.Getenv("PATH")
+	saved := configuration.CurrentConfig
+	defer func() {
+		_ = os.Chdir(cwd)
+		_ = os.Setenv("PATH", oldPath)
+		configuration.CurrentConfig = saved
+	}()
+	forms := []string{"./run.sh", "sub/../run.sh", "bin/run.sh", "<abs>"}
+	for i, form := range forms {
+		for _, configuredIsPermitted := range []bool{true, false} {
+			base := filepath.Join(dir, fmt.Sprintf("cfgexec-%d-%v", i, configuredIsPermitted))
+			_ = os.MkdirAll(filepath.Join(base, "sub"), 0755)
+			pathDir := filepath.Join(base, "pathdir")
+			real := filepath.Join(base, "run.sh")
+			if form == "bin/run.sh" {
+				real = filepath.Join(base, "bin", "run.sh")
+			}
+			mk(real, true)
+			mk(filepath.Join(pathDir, "run.sh"), false)
+			if !configuredIsPermitted {
+				// the configured file belongs to somebody else; the decoy in PATH is root's
+				_ = os.Chown(real, 1000, 1000)
+			} else {
+				_ = os.Chown(filepath.Join(pathDir, "run.sh"), 1000, 1000)
+				_ = os.Chmod(filepath.Join(pathDir, "run.sh"), 0o777)
+			}
+			exe := form
+			if form == "<abs>" {
+				exe = real
+			}
+			fanFile := filepath.Join(base, "fan")
+			_ = os.WriteFile(fanFile, []byte("100\n"), 0644)
+			text := fmt.Sprintf("dbPath: %s/fan2go.db\nsensors:\n  - id: s\n    cmd:\n      exec: %s\ncurves:\n  - id: c\n    linear:\n      sensor: s\n      min: 40\n      max: 80\nfans:\n  - id: f\n    curve: c\n    file:\n      path: %s\n", base, exe, fanFile)
+			cfgPath := filepath.Join(base, "fan2go.yaml")
+			_ = os.WriteFile(cfgPath, []byte(text), 0644)
+			_ = os.Chdir(base)
+			_ = os.Setenv("PATH", pathDir+":"+oldPath)
+			viper.Reset()
+			var lerr error
+			var out string
+			var gerr error
+			before := readLines(marker)
+			panicked, pmsg := Guard(func() {
+				configuration.InitConfig(cfgPath)
+				if lerr = viper.ReadInConfig(); lerr != nil {
+					return
+				}
+				configuration.LoadConfig()
+				if len(configuration.CurrentConfig.Sensors) != 1 {
+					lerr = fmt.Errorf("sensor entry not loaded")
+					return
+				}
+				sn, err := sensors.NewSensor(configuration.CurrentConfig.Sensors[0])
+				if err != nil {
+					lerr = err
+					return
+				}
+				var v float64
+				v, gerr = sn.GetValue()
+				out = fmt.Sprint(v)
+			})
+			after := readLines(marker)
+			ctx.Eval(1)
+			ran := ""
+			if len(after) > len(before) {
+				ran = after[len(after)-1]
+			}
+			desc := fmt.Sprintf("exec: %s (working directory = the configuration's directory, a same-named file of the opposite verdict in PATH), configured file permitted=%v: ran %q out %q err %v load %v", form, configuredIsPermitted, ran, out, gerr, lerr)
+			switch {
+			case panicked:
+				ctx.Violation("configured-exec:panic:"+form, desc+" "+firstLine(pmsg), desc)
+			case lerr != nil:
+				ctx.Violation("configured-exec:documented-entry-not-loaded:"+form, desc, desc)
+			case ran == "decoy":
+				ctx.Violation("configured-exec:a-different-file-was-run:"+form, desc, desc)
+			case !configuredIsPermitted && (ran != "" || gerr == nil):
+				ctx.Violation("configured-exec:executed-although-not-permitted:"+form, desc, desc)
+			case configuredIsPermitted && (ran != "configured" || gerr != nil):
+				ctx.Violation("configured-exec:permitted-executable-not-run:"+form, desc, desc)
+			default:
+				ctx.Nontrivial(fmt.Sprintf("configured-exec:%s:%v", form, configuredIsPermitted))
 			}
 		}
 	}
